@@ -401,6 +401,7 @@ L1 = {
     "C06": {"quick": [("MC_LimitSort", "MC_LimitSort.cfg", 8)], "thorough": [("MC_LimitSort", "MC_LimitSort_t.cfg", 14), ("MC_Store", "MC_Store_fixed.cfg", 12)]},
     "C01": {"quick": [("MC_TextMatch", "MC_TextMatch_arith_q.cfg", 12), ("MC_Store", "MC_Store_fixed.cfg", 12)],
             "thorough": [("MC_TextMatch", "MC_TextMatch_arith.cfg", 14), ("MC_WordMatch", "MC_WordMatch_c04.cfg", 14), ("MC_Store", "MC_Store_fixed_t.cfg", 14)]},
+    "C02": {"quick": [("MC_Bridge", "MC_Bridge.cfg", 6)], "thorough": [("MC_Bridge", "MC_Bridge_t.cfg", 12)]},
     "C03": {"quick": [("MC_WordMatch", "MC_WordMatch_c03_q.cfg", 12)], "thorough": [("MC_WordMatch", "MC_WordMatch_c03_t.cfg", 14)]},
     "C04": {"quick": [("MC_WordMatch", "MC_WordMatch_c04_q.cfg", 12)], "thorough": [("MC_WordMatch", "MC_WordMatch_c04_t.cfg", 14)]},
     "C05": {"quick": [("MC_TextMatch", "MC_TextMatch_arith_q.cfg", 12)], "thorough": [("MC_TextMatch", "MC_TextMatch_arith.cfg", 14)]},
